@@ -1,11 +1,13 @@
 import Mutagen.Proofs.Remote
+import Mutagen.Proofs.ReconcileValid
 /-!
 # C21 — remote endpoints behave exactly like local endpoints
 
 Property theorems only (helper lemmas live in `Mutagen.Proofs.Remote`).
 -/
 namespace Mutagen.Properties.C21
-open Mutagen.Model Mutagen.Model.Remote Mutagen.Proofs.Remote
+open Mutagen.Model Mutagen.Model.Remote Mutagen.Proofs.Remote Mutagen.Proofs.ReconcileValid
+  Mutagen.Proofs.ReconcileShape
 
 /-- `snapshot_delta_exact`: with an exact rsync engine (C19), for *any* history
 of scans — whatever the ancestors, whatever the server reports, from any
@@ -104,6 +106,36 @@ a same-length answer that is not the request is replaced by the request. -/
 theorem compaction_needs_subsequence :
     remoteStage ["a", "b"] 2 (.need ["b", "a"] [true, true]) = .need ["a", "b"] [true, true] := by
   decide
+
+/-- `transitions_pass_remote_validation`: for every mode, every valid
+synchronizable ancestor and all valid endpoint contents (names unique within
+each directory, as in a Go map), every change `Reconcile` plans for alpha and
+for beta satisfies `Change.EnsureValid(true)`: the server-side validation of a
+`TransitionRequest` never rejects a plan that a local endpoint would accept. -/
+theorem transitions_pass_remote_validation (mode : Mode) (A α β : Option Entry)
+    (hA : oensureValid true A = true) (hα : oensureValid false α = true) (hβ : oensureValid false β = true)
+    (hu : ouniqueNames β = true) :
+    transitionRequestValid (Reconcile A α β mode).alpha = true ∧
+    transitionRequestValid (Reconcile A α β mode).beta = true := by
+  simp only [transitionRequestValid, List.all_eq_true]
+  exact ⟨fun c hc => reconcile_valid mode true [] A α β hA hα hβ hu c (by simpa [side, Reconcile] using hc),
+    fun c hc => reconcile_valid mode false [] A α β hA hα hβ hu c (by simpa [side, Reconcile] using hc)⟩
+
+/-- Consequently a remote `Transition` of a planned change list is never
+rejected, and with valid results it returns exactly what the endpoint returned. -/
+theorem planned_transitions_remote_eq_local (mode : Mode) (A α β : Option Entry)
+    (hA : oensureValid true A = true) (hα : oensureValid false α = true) (hβ : oensureValid false β = true)
+    (hu : ouniqueNames β = true) (toAlpha : Bool)
+    (results : List (Option Entry)) (problems : List (Path × String)) (missing : Bool)
+    (hr : transitionResponseValid (side toAlpha (Reconcile A α β mode)).length results problems = true) :
+    ∃ rs ps m, remoteTransition (side toAlpha (Reconcile A α β mode)) (.done results problems missing) =
+      .done rs ps m ∧ rs = results ∧ ps = problems ∧ m = missing := by
+  have hv := transitions_pass_remote_validation mode A α β hA hα hβ hu
+  have : transitionRequestValid (side toAlpha (Reconcile A α β mode)) = true := by
+    cases toAlpha
+    · simpa [side] using hv.2
+    · simpa [side] using hv.1
+  exact ⟨results, problems, missing, by simp [remoteTransition, this, hr], rfl, rfl, rfl⟩
 
 /-- `completion_in_sync`: in the request / completion / response exchange of
 `Poll`, `Scan` and `Transition`, under every schedule of the client's and the
